@@ -1,9 +1,9 @@
-import PhyModel.Proofs.ConsBridge5
+import PhyModel.Proofs.ConsBridge9
 /-! # C16 — the consensus tree contains exactly the clades with majority support
 
 Property theorems about the executable model `PhyModel.Consensus` (`Model/Consensus.lean`), which
 mirrors `process_trace/consensus.py` and `process_trace.py:get_tree_from_consensus_graph`.
-Helper lemmas are in `Proofs/Consensus.lean` (Finset level) and `Proofs/ConsBridge1-5.lean`
+Helper lemmas are in `Proofs/Consensus.lean` (Finset level), `Proofs/ConsNest.lean` and `Proofs/ConsBridge1-9.lean`
 (lists ↔ Finsets).  `F m` is the family of sets a list of clades stands for; `Domain` collects
 the property's hypotheses (threshold ≥ 1/2, every tree uses a data point at most once and has no
 clone without data, weights one per tree, non-negative, total ≤ 1; `weights = none` is counts
@@ -59,37 +59,58 @@ theorem parent_is_child (m : List Clade) (hnd : ∀ c ∈ m, c.Nodup)
     · simp only at hp; subst hp; exact parent_isChild hnd hr ham
     · simp only at hn; subst hn; exact root_maximal hr
 
-/- Full statement (not proved):
-   theorem consensus_clades_exact (h : Domain trees weights θ) (n : ℕ) (r : Result)
-       (hr : run n trees weights θ = .ok r) :
-       F (cladesOf r.forest) = F (majority weights (trees.map cladeSet) θ)
--/
--- OBLIGATION-OPEN consensus_clades_exact: two list-level bridges are missing: (a) `ownOf tbl c` (clade minus the elements of its children in the parent table) equals `c \ ⋃ {d ∈ M | d ⊂ c}` and never raises KeyError on a laminar family (children are pairwise disjoint); (b) the clade list of the forest produced by the fuel-driven `buildNode` is `⋃ {own d | d ⊆ c}` for each node `c`.  Proved here: the Finset-level core (below) and that the parent table is the child relation (`parent_is_child`).  The clause is decided by the correspondence and the direct oracle.
+/-- **"relabel never raises KeyError"** (bridge (a)).  For every iteration order `m'` of the majority
+set and the parent table built from it, `_relabel` at each node succeeds — no element is removed
+twice and every removed element is present, because the children of a node are pairwise disjoint
+subsets of it — and the data it leaves at the node is the clade minus the union of all majority
+clades strictly inside it. -/
+theorem own_is_clade_minus_subclades (h : Domain trees weights θ) (m' : List Clade)
+    (hp : m'.Perm (majority weights (trees.map cladeSet) θ))
+    (tbl : List (Clade × Option Clade)) (ht : parentTable m' = .ok tbl) :
+    ∀ c ∈ m', ∃ o, ownOf tbl c = .ok o ∧ o.Nodup ∧
+      o.toFinset = c.toFinset \
+        ((F (majority weights (trees.map cladeSet) θ)).filter (fun e => e ⊂ c.toFinset)).biUnion id := by
+  intro c hc
+  have hg : GoodFamily m' := (majority_good h).perm hp
+  obtain ⟨o, h1, h2, h3⟩ := ownOf_spec hg ht hc
+  exact ⟨o, h1, h2, by rw [h3, strictU, F_perm hp]⟩
 
-/-- Finset-level core of "the clades of the built tree are exactly the majority clades": in the
-majority family, the own sets (a member minus all members strictly inside it) of the members
-inside `c` union to `c`. -/
-theorem consensus_clades_exact_partial (_h : Domain trees weights θ) (c : Finset ℕ)
-    (hc : c ∈ F (majority weights (trees.map cladeSet) θ)) :
-    ((F (majority weights (trees.map cladeSet) θ)).filter (fun d => d ⊆ c)).biUnion
-      (fun d => d \ ((F (majority weights (trees.map cladeSet) θ)).filter (fun e => e ⊂ d)).biUnion id) = c :=
-  _root_.Consensus.own_cover _ c hc
+/-- **The consensus tree contains exactly the clades with majority support.**  Whenever the
+consensus command returns a tree for an in-domain trace, the set of clades of that tree (one
+clade per clone: its data and everything below it) is the set of clades whose support strictly
+exceeds the threshold. -/
+theorem consensus_clades_exact (h : Domain trees weights θ) (n : ℕ) (r : Result)
+    (hr : run n trees weights θ = .ok r) :
+    F (cladesOf r.forest) = F (majority weights (trees.map cladeSet) θ) :=
+  nest_clades_exact (majority_good h) (run_spec hr).1
 
-/- Full statement (not proved):
-   theorem uncovered_are_minus1 (h : Domain trees weights θ) (n : ℕ) (r : Result)
-       (hr : run n trees weights θ = .ok r) (i : ℕ) :
-       i ∈ r.outs ↔ i < n ∧ ∀ c ∈ majority weights (trees.map cladeSet) θ, i ∉ c
--/
--- OBLIGATION-OPEN uncovered_are_minus1: needs bridge (a) above (the own sets of the table cover exactly the union of the majority clades); proved: the outlier list is exactly the data indices that no consensus node owns.
+/-- **Every data point not covered by a retained clade is reported as outlier (clone id -1), and
+nothing else is.** -/
+theorem uncovered_are_minus1 (h : Domain trees weights θ) (n : ℕ) (r : Result)
+    (hr : run n trees weights θ = .ok r) (i : ℕ) :
+    i ∈ r.outs ↔ i < n ∧ ∀ c ∈ majority weights (trees.map cladeSet) θ, i ∉ c :=
+  nest_outs_exact (majority_good h) (run_spec hr).1 i
 
-/-- Every data point that no consensus node owns is reported as an outlier (clone id -1), and
-nothing else is. -/
-theorem uncovered_are_minus1_partial (n : ℕ) (m : List Clade) (f : DF) (outs : List ℕ)
+/-- Both clauses for every iteration order `m'` of the majority set (Python iterates over a `set`
+of frozensets): the forest built from `m'` has exactly the majority clades and its outliers are
+exactly the uncovered data indices. -/
+theorem consensus_any_order (h : Domain trees weights θ) (n : ℕ) (m' : List Clade)
+    (hp : m'.Perm (majority weights (trees.map cladeSet) θ)) (f : DF) (outs : List ℕ)
     (owns : List (Clade × List ℕ)) (tbl : List (Clade × Option Clade))
-    (h : nest n m = .ok (f, outs, owns, tbl)) (i : ℕ) :
-    i ∈ outs ↔ i < n ∧ ∀ e ∈ owns, i ∉ e.2 := by
-  rw [(nest_outs h).1]
-  exact mem_outliersOf
+    (hr : nest n m' = .ok (f, outs, owns, tbl)) :
+    F (cladesOf f) = F (majority weights (trees.map cladeSet) θ) ∧
+    ∀ i, i ∈ outs ↔ i < n ∧ ∀ c ∈ majority weights (trees.map cladeSet) θ, i ∉ c := by
+  have hg : GoodFamily m' := (majority_good h).perm hp
+  refine ⟨by rw [nest_clades_exact hg hr, F_perm hp], fun i => ?_⟩
+  rw [nest_outs_exact hg hr i]
+  exact and_congr_right fun _ => ⟨fun hh c hc => hh c (hp.mem_iff.mpr hc), fun hh c hc => hh c (hp.mem_iff.mp hc)⟩
+
+/-- The hypothesis `run … = .ok r` of the two theorems above is met by every in-domain trace over
+data points `0 … n-1`: the command raises none of its errors ("Inconsistent set of clades",
+KeyError in `relabel`, index outside the data set, too few weights). -/
+theorem run_succeeds (h : Domain trees weights θ) (n : ℕ) (hn : ∀ t ∈ trees, ∀ i ∈ t.all, i < n) :
+    ∃ r, run n trees weights θ = .ok r :=
+  run_ok h hn
 
 /-! ### non-vacuity -/
 
@@ -98,8 +119,8 @@ def tA : DF := .cons [0] (.cons [1] .nil .nil) (.cons [2] (.cons [3] .nil .nil) 
 def tB : DF := .cons [1] (.cons [0] .nil .nil) (.cons [3] (.cons [2] .nil .nil) .nil)
 def tC : DF := .cons [0] .nil (.cons [1] .nil (.cons [2] .nil (.cons [3] .nil .nil)))
 
-/-- counts mode: the hypotheses of the first two theorems hold on the regression instance -/
-example : Domain [tA, tB, tC] none (1 / 2) where
+/-- counts mode: the regression instance is in the domain -/
+theorem dom_counts : Domain [tA, tB, tC] none (1 / 2) where
   theta := le_refl _
   nodup := by intro t ht; simp only [List.mem_cons, List.not_mem_nil, or_false] at ht; rcases ht with rfl | rfl | rfl <;> decide
   nonempty := by
@@ -107,8 +128,8 @@ example : Domain [tA, tB, tC] none (1 / 2) where
     rcases ht with rfl | rfl | rfl <;> simp [tA, tB, tC, NonemptyClones]
   weights := ⟨fun _ h => (by cases h), fun _ h => (by cases h), fun _ h => (by cases h)⟩
 
-/-- weighted mode, threshold 3/5 -/
-example : Domain [tA, tB, tC] (some [1 / 2, 1 / 4, 1 / 4]) (3 / 5) where
+/-- weighted mode, threshold 3/5: in the domain -/
+theorem dom_weighted : Domain [tA, tB, tC] (some [1 / 2, 1 / 4, 1 / 4]) (3 / 5) where
   theta := by norm_num
   nodup := by intro t ht; simp only [List.mem_cons, List.not_mem_nil, or_false] at ht; rcases ht with rfl | rfl | rfl <;> decide
   nonempty := by
@@ -121,9 +142,32 @@ example : Domain [tA, tB, tC] (some [1 / 2, 1 / 4, 1 / 4]) (3 / 5) where
       rcases hw with rfl | rfl | rfl <;> norm_num),
     fun ws h => (by injection h with h; subst h; norm_num)⟩
 
-/-- `parent_is_child` / `uncovered_are_minus1_partial`: nesting the family {0,1},{0},{1},{2,3} on
-five data points succeeds, {0,1} keeps no data of its own and data point 4 becomes an outlier -/
-example : (nest 5 [[0, 1], [0], [1], [2, 3]]).toOption.map (fun r => (r.2.1, r.2.2.1)) =
-    some ([4], [([0, 1], []), ([0], [0]), ([1], [1]), ([2, 3], [2, 3])]) := by decide
+theorem data_lt_five : ∀ t ∈ [tA, tB, tC], ∀ i ∈ t.all, i < 5 := by
+  intro t ht; simp only [List.mem_cons, List.not_mem_nil, or_false] at ht
+  rcases ht with rfl | rfl | rfl <;> decide
+
+/-- `consensus_clades_exact` / `uncovered_are_minus1` / `run_succeeds` are not vacuous: on the
+regression instance over five data points the command returns a result (both modes), so its
+clades are the majority clades and its outliers the uncovered indices (data point 4) -/
+example : ∃ r, run 5 [tA, tB, tC] none (1 / 2) = .ok r ∧
+    F (cladesOf r.forest) = F (majority none ([tA, tB, tC].map cladeSet) (1 / 2)) ∧
+    (4 ∈ r.outs ↔ 4 < 5 ∧ ∀ c ∈ majority none ([tA, tB, tC].map cladeSet) (1 / 2), 4 ∉ c) := by
+  obtain ⟨r, hr⟩ := run_succeeds dom_counts 5 data_lt_five
+  exact ⟨r, hr, consensus_clades_exact dom_counts 5 r hr, uncovered_are_minus1 dom_counts 5 r hr 4⟩
+
+example : ∃ r, run 5 [tA, tB, tC] (some [1 / 2, 1 / 4, 1 / 4]) (3 / 5) = .ok r :=
+  run_succeeds dom_weighted 5 data_lt_five
+
+/-- `parent_is_child` / `own_is_clade_minus_subclades` / `consensus_any_order`: nesting the family
+{0,1},{0},{1},{2,3} on five data points succeeds, {0,1} keeps no data of its own, data point 4
+becomes an outlier and the clades of the built forest are the family -/
+example : (nest 5 [[0, 1], [0], [1], [2, 3]]).toOption.map (fun r => (cladesOf r.1, r.2.1, r.2.2.1)) =
+    some ([[0, 1], [0], [1], [2, 3]], [4], [([0, 1], []), ([0], [0]), ([1], [1]), ([2, 3], [2, 3])]) := by
+  decide
+
+/-- out of the domain (threshold below 1/2 admits the non-laminar family {0,1},{1,2}) the
+conclusion of `own_is_clade_minus_subclades` / `run_succeeds` fails: the model raises, as the
+code does -/
+example : (nest 3 [[0, 1], [1, 2], [1], [0, 1, 2]]).toOption = none := by decide
 
 end PhyModel.Props.C16
